@@ -310,7 +310,7 @@ def run_c17(rep, tier, seed):
             ("worker merging every 30 ms and syncing every 25 ms", "cfg mfs=60 sync=25 policy=always interval=30 jitter=1/1 tfrag=0/1 tdead=0 frag=0/1 dead=0 small=1099511627776", [], 3000),
         ]
     for si, (name, cfg, special, deadline) in enumerate(scenarios):
-        lines = [cfg, f"dir s{si}", "trace on", "keys 61 62"]
+        lines = [cfg, f"dir s{si}", "trace on", "keys 61 62 63"]
         if special == "park-merge":
             lines += [f"t.park {BG} bg.before_merge 1"]
         lines += ["open", "put 61 3131", "put 61 3232", "put 62 3333", "del 62"]
@@ -323,7 +323,7 @@ def run_c17(rep, tier, seed):
         if special == "park-merge":
             lines += [f"t.release {BG}"]
         i_ops = len(lines)
-        lines += ["put 61 3434", "get 61", "del 61", "merge", "sync"]
+        lines += ["put 61 3434", "get 61", "get 62", "get 63", "del 61", "merge", "sync"]
         i_wait = len(lines)
         lines += [f"waitbg 0 {deadline}", "sleep 80", "tdrain", "whocalls", "close", "reopen", "get 61", "get 62", "close"]
         # `trace-settle` / `calls-after-drop` are evaluated from the per-line traces; keep placeholders out of the script
@@ -350,7 +350,7 @@ def run_c17(rep, tier, seed):
             i_who = [k for k, l in enumerate(script) if l == "whocalls"][1]
             who = dict(t.split("=") for t in ans[i_who].split())
             fg_calls, bg_calls = int(who.get("fg", 0)), int(who.get("bg", 0))
-            for l in ["put 61 3434", "get 61", "del 61", "sync"]:
+            for l in ["put 61 3434", "get 61", "get 62", "get 63", "del 61", "sync"]:
                 i = script.index(l, i_drop)
                 if not strip(ans[i]).startswith("err closed"):
                     bad = (i, "err closed", ans[i])
@@ -503,6 +503,32 @@ def run_c18(rep, tier, seed):
                                                                           failing_line=bad[0], expected=str(bad[1]), observed=str(bad[2])[:300], model_answers=mans))
         if ci < 3:
             rep.sample({"case": name, "script": script, "answers": ans})
+    # a merge that is due must not be skipped because a client happens to hold the writer lock when the check fires: a
+    # busy writer issues sets back to back and sits 300 ms inside each (between append and publish, i.e. holding the
+    # writer lock); the due merge has to wait its turn and run, within interval + hold + slack
+    for interval in ([250] if tier == "quick" else [150, 250, 400]):
+        hold = 300
+        bound = interval + 2 * hold + SLACK
+        script = [f"cfg mfs=1000000 interval={interval} jitter=0/1 frag=0/1 dead=0 small=1099511627776 policy=always tfrag=1/2 tdead=1099511627776",
+                  f"dir bw{interval}", "open", "put 6b 31*10", "put 6b 32*10", "put 6b 33*10", "put 6b 34*10", "canmerge", f"bw.start {hold}",
+                  f"waitfor hint {bound}", "bw.stop", "get 6b", "close"]
+        shutil.rmtree(root, ignore_errors=True)
+        try:
+            ans = run_harness(["store", "--root", root, "--hang-ms", "30000"], script, preload=False, timeout=120)
+        except Died as d:
+            rep.violation("oracle", dict(what=f"harness died / hung with a busy writer ({d.why})", script=script, answers=d.answered))
+            continue
+        rep.cov["evaluations"] += len(script)
+        rep.count("busy_writer_cases")
+        rep.nontrivial(["c18bw", interval])
+        i = script.index("canmerge")
+        if ans[i] != "true":
+            rep.violation("oracle", dict(what="trigger exceeded but can_merge() is false", script=script, answers=ans, failing_line=i, expected="true", observed=ans[i]))
+        elif not ans[i + 2].startswith("seen"):
+            rep.violation("oracle", dict(what=f"policy=always, trigger exceeded, a client keeps the writer busy ({ans[i + 3]}): no merge within {bound} ms although the lock is released between any two sets",
+                                         script=script, answers=ans, failing_line=i + 2, expected=f"a merge within {bound} ms", observed=ans[i + 2]))
+        elif ans[i + 4] != "34343434343434343434":
+            rep.violation("oracle", dict(what="wrong value after a merge with a busy writer", script=script, answers=ans, failing_line=i + 4, expected="34343434343434343434", observed=ans[i + 4]))
     # interval sync: the active file is fsynced at least once per interval while the store is open
     for interval in ([50] if tier == "quick" else [30, 50, 120]):
         script = [f"cfg mfs=1000000 sync={interval} policy=never", "dir sy", "trace on", "open", "put 61 31"] + [f"waitfor fsync {interval + SLACK}"] * 5 + ["close"]
@@ -531,7 +557,7 @@ def run_c18(rep, tier, seed):
     rep.cov["rule"] = ("configurations x write patterns: policy always/never/window (containing or not the current hour), fragmentation and dead-bytes triggers just above and just below the written pattern "
                        "(3 of 4 entries dead, ~84 dead bytes; and a file whose entries are all dead: two overwritten values and a tombstone), check intervals 40-150 ms, jitter 0 / 0.3 / 1; the store is left alone and the directory polled: a merge (a hint file) must appear within "
                        "interval*(1+jitter)+4 s when expected and must not appear during >= 12 intervals when not; `can_merge()` is compared with the Lean decision model; interval sync: five consecutive "
-                       "waits each see an fsync of the active file within interval+4 s; sync=none: none in 400 ms; non-trivial = distinct case")
+                       "waits each see an fsync of the active file within interval+4 s; a busy writer (sets back to back, each holding the writer lock 300 ms) must not make a due merge be skipped; sync=none: none in 400 ms; non-trivial = distinct case")
 
 
 RUNNERS.update({"C17": run_c17, "C18": run_c18})
